@@ -517,7 +517,7 @@ class AbstractInlets(StreamSequence):
         return stream
     
     def _undock(self, stream): 
-        stream._sink = None
+        if stream._sink is self._sink: stream._sink = None
     
         
 class AbstractOutlets(StreamSequence):
@@ -560,7 +560,7 @@ class AbstractOutlets(StreamSequence):
         return stream
     
     def _undock(self, stream): 
-        stream._source = None
+        if stream._source is self._source: stream._source = None
 
 
 
